@@ -116,10 +116,13 @@ def check_c06(ctx):
     core.build_vh(ctx)
     mc = [core.model_check(ctx, "ImportClosure", "MCImportFaults2.cfg"),
           core.model_check(ctx, "ImportClosure", "MCImportFaultsSafety.cfg" if quick else "MCImportFaults.cfg", timeout=1800)]
+    mc.append(core.model_check(ctx, "ImportClosureGen", "MCImportAlias2.cfg" if quick else "MCImportAlias.cfg", timeout=2400))
     gens = [("GenImportFaults3.cfg", None if not quick else 1500, 1),
-            ("GenImportFaults4.cfg", 1200 if quick else 10000, 2)]
+            ("GenImportFaults4.cfg", 1000 if quick else 10000, 2),
+            ("GenImportAlias4.cfg", 500 if quick else 5000, 3)]
     scn = _scenarios(ctx, gens, free_every=4 if quick else 3)
-    scn = [s for s in scn if any(v != "none" for v in s["fail"].values())]
+    scn = [s for s in scn if any(v != "none" for v in s["fail"].values())
+           or any(a for al in s.get("aliases", {}).values() for a in al)]
     for i, s in enumerate(scn):
         s["id"] = i + 1
     events, _ = core.vh_sharded(ctx, "importclosure", scn, timeout=3000)
